@@ -369,6 +369,15 @@ func (c *callRun) runHandler(ctx context.Context, ss grpc.ServerStream, dec func
 		close(a.exited)
 	}()
 	finish := func(st int, nresp int) (interface{}, error) {
+		// nresp = 2: "no response" in the shape generated code gives it, a
+		// typed nil pointer (return nil, nil in a method returning *Message)
+		if c.sc.Chain && c.id%2 == 0 {
+			st, nresp = 0, 1
+		}
+		typedNil := nresp == 2
+		if typedNil {
+			nresp = 0
+		}
 		c.emit("HReturn", "st", c.statusRec(st), "nresp", nresp)
 		var e error
 		if st > 0 && st <= len(c.sts) {
@@ -376,6 +385,9 @@ func (c *callRun) runHandler(ctx context.Context, ss grpc.ServerStream, dec func
 		}
 		if nresp == 1 && len(c.respMsgs) > 0 {
 			return c.respMsgs[0], e
+		}
+		if typedNil {
+			return (*gt.Message)(nil), e
 		}
 		return nil, e
 	}
